@@ -6,7 +6,7 @@
     [run] returns the accepted deliveries and whether the size-based eviction
     ever ran. *)
 From Coq Require Import List NArith ZArith.
-From MM Require Import Model.SleepCmd Model.SleepCmdFlood Proofs.SleepCmdProofs Proofs.SleepCmdOnceProofs.
+From MM Require Import Model.SleepCmd Model.SleepCmdFlood Proofs.SleepCmdProofs Proofs.SleepCmdOnceProofs Generated.C29.
 Import ListNotations.
 Local Open Scope Z_scope.
 
@@ -61,3 +61,25 @@ Theorem C29_flood_history_repaired :
   run small_cfg model_peers [] hist_flood = ([(T0, now_cmd)], false).
 Proof. exact flood_history_repaired. Qed.
 Print Assumptions C29_flood_history_repaired.
+
+(** Source facts regenerated on this run: markSleepCmdSeen is one critical
+    section (what makes a delivery an atomic step of a history), it refreshes
+    SeenAt when the same command comes from another peer, the handlers check
+    the loop, verify and only then mark, the expiry handed to the sleep command
+    cache is max(SeenCacheTTL, 2 x timestampWindow) and is tested strictly, the
+    size-based eviction exists (the model's overflow case), the cleanup loop
+    runs every SeenCacheTTL/2, and the default constants are the model's. *)
+Theorem C29_source_facts :
+  gen_c29_mark_is_one_critical_section = true /\
+  gen_c29_mark_refreshes_seen_at_for_other_peer = true /\
+  gen_c29_sleep_loopcheck_verify_mark_order = true /\ gen_c29_wake_loopcheck_verify_mark_order = true /\
+  gen_c29_sleep_cache_expiry_is_max_ttl_two_windows = true /\
+  gen_c29_expiry_test_strict = true /\
+  gen_c29_size_eviction_when_over_max = true /\
+  gen_c29_cleanup_every_half_ttl = true /\
+  gen_c29_default_ttl_ns = f_ttl (default_cfg true) /\
+  gen_c29_default_window_ns = f_window (default_cfg true) /\
+  gen_c29_default_max_cache = f_max (default_cfg true) /\
+  2 * gen_c29_default_window_ns <= sleep_expiry (default_cfg true).
+Proof. repeat split; try reflexivity; vm_compute; discriminate. Qed.
+Print Assumptions C29_source_facts.
